@@ -112,6 +112,18 @@ PROPS["C17"] = {
     "assumptions": [TIME_RANGE, "distinct times per key (the property's precondition)"],
 }
 
+PROPS["C06"] = {
+    "harnesses": [
+        {"pkg": ".", "dir": "s3db", "entry": "VerifH_C06_scan",
+         "quick": {"params": "keys=3,constraints=1,maxlayer=1,nulls=1,reopen=0", "workers": 16, "timeout": 1200},
+         "thorough": {"params": "keys=3,constraints=2,maxlayer=2,nulls=1", "workers": 16, "timeout": 6000}},
+    ],
+    "bounds": {"quick": "3 symbolic INT keys (full int64) with uninterpreted layers 0..2 (entries_per_node 2: every tree shape of height <= 2), optionally one deleted row, optionally commit + re-open; 0..1 key constraints from {=,<,<=,>=,>} with symbolic INT or NULL operand; ORDER BY none/key asc/key desc/non-key",
+               "thorough": "0..2 constraints"},
+    "outside": "SQLite's planner/VM (LIMIT, aggregates, IN expansion, affinity), cgo value conversion; TEXT/BLOB/REAL keys in scans",
+    "assumptions": [TIME_RANGE, "SQLite re-checks every constraint on every row (ConstraintUsage.Omit is never set) and passes NULL operands to xFilter"],
+}
+
 # Properties not (yet) claimed, each with the reason.  Kept current by hand.
 NOT_APPLICABLE = {
     "C%02d" % i: "check not built yet in this session (breadth-first build order, DESIGN §9); no claim is made" for i in range(1, 21)
